@@ -324,7 +324,7 @@ def run_case(c):
                     res.ok('run:plot=%s:hist=%s' % (cfg['plot'], cfg['hist']), bool(beads or samples))
             res.sample({'configuration': {k_: v for k_, v in cfg.items()}})
         elif k == 'example':
-            src = '/repo/examples'
+            src = os.path.join(os.environ.get('FCVERIF_REPO', '/repo'), 'examples')
             shutil.copytree(os.path.join(src, 'FCFiles'), os.path.join(d, 'FCFiles'))
             shutil.copy(os.path.join(src, 'experiment.xlsx'), os.path.join(d, 'experiment.xlsx'))
             import pandas as pd
